@@ -133,7 +133,10 @@ def check_table(job):
     rng = random.Random(seed)
     out = []
     V, N, T = cfg["V"], cfg["N"], cfg["T"]
-    sos = 0 if cfg["sos_in"] else rng.choice((-1, V, V + 4))
+    # a start symbol OUTSIDE the vocabulary may be any other integer: next to the usual -1 / V also ids that coincide
+    # with a real token modulo 256 / 65536 (the trie stores token ids in the narrowest unsigned type that holds V)
+    sos = 0 if cfg["sos_in"] else rng.choice((-1, V, V + 4, 256, 256 + rng.randrange(V), rng.randrange(V) - 256,
+                                              65536 + rng.randrange(V), 1000))
     case = dict(cfg=cfg, fin=rec["fin"], inf=rec["inf"], vals=rec["vals"], sos=sos)
 
     def bad(site, kind, detail, extra=None):
